@@ -53,3 +53,37 @@ def bfs(init, key, successors, invariant, max_states=None, max_depth=None, stop_
                 return res
             frontier.append((nxt, tr))
     return res
+
+
+def dfs(init, key, successors, invariant, depth, res=None, seen=None, trace=()):
+    """Depth-bounded depth-first exploration (memory-light; one live object per level).
+
+    `seen` maps key -> largest remaining depth already explored from that state, so a state reached again with
+    no more remaining depth than before is not re-expanded (sound for a depth bound: its subtree was covered)."""
+    if res is None:
+        res = Result()
+        res.states = 1
+    if seen is None:
+        seen = {key(init): depth}
+    if depth == 0:
+        return res
+    for label, nxt in successors(init):
+        res.transitions += 1
+        tr = trace + (label,)
+        v = invariant(nxt)
+        if v:
+            if len(res.violations) < 50:
+                res.violations.append((v[0], list(tr), v[1]))
+            continue
+        k = key(nxt)
+        rem = depth - 1
+        old = seen.get(k)
+        if old is not None and old >= rem:
+            continue
+        if old is None:
+            res.states += 1
+        seen[k] = rem
+        if len(tr) > res.max_depth:
+            res.max_depth = len(tr)
+        dfs(nxt, key, successors, invariant, rem, res, seen, tr)
+    return res
